@@ -21,6 +21,22 @@ Theorem C08_no_carry_over_any_implementation :
 Proof. exact no_carry_over_pooled_gen. Qed.
 Print Assumptions C08_no_carry_over_any_implementation.
 
+(* a field added to the struct needs no new model column: when the model's table satisfies the read-before-write
+   condition and the regenerated columns of the fields no model field stands for pass Inst_C08's [extras_ok] (each such
+   field is dead on entry of every method, or kept by work and zeroed by every boundary operation), the table EXTENDED
+   by those columns satisfies the hypothesis of the generic theorem above, and its footprint on the model's own fields
+   is the model's *)
+Theorem C08_extra_fields_admitted :
+  forall (field op : Type) (T : footprint field op) (fname : field -> String.string) (methods : op -> list String.string)
+         (gen_fields : list String.string) (gen : list fxrow),
+  table_ok T = true -> extras_ok T fname methods gen_fields gen = true ->
+  table_ok (ext_table T fname methods gen_fields gen) = true /\
+  (forall o f, fp_reads (ext_table T fname methods gen_fields gen) o (inl f) = fp_reads T o f /\
+               fp_eff (ext_table T fname methods gen_fields gen) o (inl f) = fp_eff T o f /\
+               fp_kind (ext_table T fname methods gen_fields gen) o = fp_kind T o).
+Proof. intros. split; [apply ext_table_ok; assumption | apply ext_conservative]. Qed.
+Print Assumptions C08_extra_fields_admitted.
+
 (* parser: for every statement parser, every finite history of Parse / ParseWithPositions / ParseContext / recovery
    parses (valid, failing, cancelled, conversion failures), ApplyOptions, Reset, Release, Put/Get on an instance that
    was new or came out of the pool after arbitrary use by others: the probe call gives exactly what it gives on a new
